@@ -5,7 +5,7 @@ ID = "C02"
 NO_COVERAGE = True      # the cases live inside a stand-alone differential script (tools/difftest_*.py), not in this module
 LEAN_MODULES = ["LhasaV.Props.C02"]
 VH_FEATURES = ["decoder"]
-THEOREMS = {"lh1_lockstep": "FULL STATEMENT: every symbol sequence, any length, any number of rebuilds: decoder tree = mirror image of the LZHUF tree",
+THEOREMS = {"lh1_init_matches_source": "full (translator tie): the state lha_lh1_init of the working tree builds (offset lookup, offset lengths, code-to-leaf map, ring, position), dumped on every run, = the model's init for every source", "lh1_lockstep": "FULL STATEMENT: every symbol sequence, any length, any number of rebuilds: decoder tree = mirror image of the LZHUF tree",
             "lh1_decode_encode": "FULL round trip: every valid command list, any chunking/schedule, declared length <= expansion (necessary: zero padding)",
             "mirror_init": "full", "mirror_step": "full: one symbol incl. rebuild", "rebuild_reached": "full: the rebuild branch is reached after 32454 symbols",
             "mirror_is_what_the_tie_evaluates": "full: Mirror implies the driver's mirrorDiff = none",
